@@ -92,5 +92,5 @@ func ruleR01(c *Ctx) {
 		})
 	}
 	c.r.note("R01: %d index/slice sites on probe keys examined; probe-key variables: %d", n, len(probe))
-	c.r.floor("R01", 30, "key index sites", "C01")
+	c.r.floor("R01", 25, "key index sites", "C01")
 }
